@@ -76,6 +76,7 @@ type Exec struct {
 	fnAt     map[string]*FnVal
 	nowrap   bool
 	heapRegs map[string]func(*Ctx)
+	varargs  map[string]map[string]SV // alloc ref of a [N]any array -> constant index -> value stored there
 }
 
 type view struct {
@@ -1056,6 +1057,16 @@ func (f *Frame) execInstr(in ssa.Instruction, st *State, g string) {
 			}
 		}
 		f.store(st, p, t, v.T, g, f.where(i))
+		if p.A != nil && len(p.A.Path) == 1 && p.A.Path[0].structT == nil && strings.HasPrefix(p.A.Heap, "B:[") {
+			// element of a local array (typically the varargs array of a call): remember the value stored
+			if f.x.varargs == nil {
+				f.x.varargs = map[string]map[string]SV{}
+			}
+			if f.x.varargs[p.A.Ref] == nil {
+				f.x.varargs[p.A.Ref] = map[string]SV{}
+			}
+			f.x.varargs[p.A.Ref][p.A.Path[0].idx] = v
+		}
 	case *ssa.MakeInterface:
 		f.env[i] = f.makeInterface(i.X.Type(), f.val(i.X, st), st, g)
 	case *ssa.ChangeInterface:
